@@ -301,6 +301,34 @@ def _degrees(eng, args, kwargs):
     return f(v)
 
 
+# ------------------------------------------------------------------ linalg.norm with ord / keepdims
+def _norm(eng, args, kwargs):
+    kw = dict(kwargs)
+    order = kw.pop("ord", args[1] if len(args) > 1 else None)
+    keep = kw.pop("keepdims", False)
+    if len(args) > 2:
+        kw["axis"] = args[2]
+    a = args[0]
+    if not isinstance(a, NArr) and not isinstance(a, (PList, list, tuple)):
+        return narr.np_norm(eng, [a], kw)
+    a = narr._as_narr(eng, a)
+    axis = kw.get("axis")
+    vector_norm = a.ndim == 1 or isinstance(axis, int)
+    if order is not None and not (order == 2 and vector_norm):
+        raise Unsupported("np.linalg.norm: only the Euclidean vector norm (ord None, or ord=2 along one axis) is modelled")
+    if a.ndim > 1 and axis is None and order is not None:
+        raise Unsupported("np.linalg.norm: matrix norms are not modelled")
+    r = narr.np_norm(eng, [a], kw)
+    if keep:
+        used(eng, "np.linalg.norm(..., keepdims=True): the reduced axis is kept with size 1")
+        if axis is None:
+            return NArr((1,) * a.ndim, [r], "real")
+        ax = axis % a.ndim
+        shape = a.shape[:ax] + (1,) + a.shape[ax + 1:]
+        return NArr(shape, list(r.items), "real")
+    return r
+
+
 # ------------------------------------------------------------------ ceil / int of a symbolic real
 def _ceil(eng, args, kwargs):
     v = args[0]
@@ -371,6 +399,7 @@ def install():
     models.EXTRA_MODELS[np.concatenate] = _concatenate
     if _rows_element not in models.EXTRA_ELEMENT_HOOKS:
         models.EXTRA_ELEMENT_HOOKS.append(_rows_element)
+    models.EXTRA_MODELS[np.linalg.norm] = _norm
     models.EXTRA_MODELS[np.nonzero] = _nonzero
     models.EXTRA_MODELS[np.ceil] = _ceil
     models.EXTRA_MODELS[int] = _int
